@@ -156,3 +156,33 @@ def verify_loop_body_bv(ex, c, info, fn, ordinal):
     for m in assigned_names(node.body):
         post[m + "_out"] = env.vars[m]
     ex.check(f"loop{ordinal}.body_lemma", eval_clause(ex, spec["body_ensures"], post))
+
+
+def concrete_for(ex, node, items, fr, spec, ordinal):
+    """loop over a concrete sequence under the invariant rule: the state of an arbitrary iteration is rebuilt from the
+    invariant by the contract's `state` constructor, so the number of paths is linear in the sequence length even
+    when every iteration forks"""
+    from .contracts import eval_clause
+    inv = spec["inv"]
+    make_state = spec["state"]
+    n = len(items)
+    ex.check(f"loop{ordinal}.inv_on_entry", eval_clause(ex, inv, _inv_env(fr, {"_i": 0, "_n": n})))
+    which = ex.choose(2, tag=f"loop{ordinal}")
+    if which == 1:
+        k = ex.choose(n, tag=f"loop{ordinal}.iteration") if n else None
+        if k is None:
+            raise PathEnd()
+        fr.env.vars.update(make_state(ex, _inv_env(fr, {}), k))
+        ex.check(f"loop{ordinal}.state_satisfies_inv", eval_clause(ex, inv, _inv_env(fr, {"_i": k, "_n": n})))
+        ex.assign(node.target, items[k], fr)
+        try:
+            ex.exec_block(node.body, fr)
+        except ContinueSig:
+            pass
+        except BreakSig:
+            raise Unsupported("break inside a loop under the invariant rule")
+        ex.check(f"loop{ordinal}.inv_preserved", eval_clause(ex, inv, _inv_env(fr, {"_i": k + 1, "_n": n})))
+        raise PathEnd()
+    fr.env.vars.update(make_state(ex, _inv_env(fr, {}), n))
+    ex.check(f"loop{ordinal}.state_satisfies_inv", eval_clause(ex, inv, _inv_env(fr, {"_i": n, "_n": n})))
+    ex.exec_block(node.orelse, fr)
